@@ -58,15 +58,15 @@ pub fn finish(att: &Att) {
     assert!(env::nmapped() == 0, "C16-LEAK: mapping kept after message and result were dropped");
     assert!(!env::bad_close(), "C16-DOUBLE-CLOSE");
     assert!(!env::model_bound_exceeded(), "MODEL-BOUND");
-    cover!(true, "REACH_END");
+    crate::reach_end!();
 }
 
 fn plain<T: for<'de> Deserialize<'de> + Serialize>(nch: usize, nreg: usize) {
     setup(64);
     let (m, att) = garbage_message(nch, nreg);
     let r = m.to::<T>();
-    cover!(r.is_ok(), "REACH_OK");
-    cover!(r.is_err(), "REACH_ERR");
+    crate::witness!(r.is_ok(), "WITNESS:REACH_OK");
+    crate::witness!(r.is_err(), "WITNESS:REACH_ERR");
     drop(r);
     finish(&att);
 }
@@ -85,8 +85,8 @@ fn sender(nch: usize, nreg: usize) {
     setup(64);
     let (m, att) = garbage_message(nch, nreg);
     let r = m.to::<IpcSender<u8>>();
-    cover!(r.is_ok(), "REACH_OK");
-    cover!(r.is_err(), "REACH_ERR");
+    crate::witness!(r.is_ok(), "WITNESS:REACH_OK");
+    crate::witness!(r.is_err(), "WITNESS:REACH_ERR");
     if let Ok(s) = &r {
         assert!(one_of(sender_obj(s), &att), "C16-FOREIGN: decoded an endpoint that was not attached");
     }
@@ -97,8 +97,8 @@ fn sender_pair(nch: usize) {
     setup(64);
     let (m, att) = garbage_message(nch, 0);
     let r = m.to::<(IpcSender<u8>, IpcSender<u8>)>();
-    cover!(r.is_ok(), "REACH_OK");
-    cover!(r.is_err(), "REACH_ERR");
+    crate::witness!(r.is_ok(), "WITNESS:REACH_OK");
+    crate::witness!(r.is_err(), "WITNESS:REACH_ERR");
     if let Ok((a, b)) = &r {
         let (oa, ob) = (sender_obj(a), sender_obj(b));
         assert!(one_of(oa, &att) && one_of(ob, &att), "C16-FOREIGN: decoded an endpoint that was not attached");
@@ -111,8 +111,8 @@ fn receiver(nch: usize) {
     setup(64);
     let (m, att) = garbage_message(nch, 0);
     let r = m.to::<IpcReceiver<u8>>();
-    cover!(r.is_ok(), "REACH_OK");
-    cover!(r.is_err(), "REACH_ERR");
+    crate::witness!(r.is_ok(), "WITNESS:REACH_OK");
+    crate::witness!(r.is_err(), "WITNESS:REACH_ERR");
     if let Ok(s) = &r {
         assert!(one_of(receiver_obj(s), &att), "C16-FOREIGN: decoded an endpoint that was not attached");
     }
@@ -123,8 +123,8 @@ fn shm(nreg: usize) {
     setup(64);
     let (m, att) = garbage_message(0, nreg);
     let r = m.to::<IpcSharedMemory>();
-    cover!(r.is_ok(), "REACH_OK");
-    cover!(r.is_err(), "REACH_ERR");
+    crate::witness!(r.is_ok(), "WITNESS:REACH_OK");
+    crate::witness!(r.is_err(), "WITNESS:REACH_ERR");
     if let Ok(s) = &r {
         // either the empty region or one of the attached ones, with its contents
         assert!(
@@ -139,8 +139,8 @@ fn shm_pair(nreg: usize) {
     setup(64);
     let (m, att) = garbage_message(0, nreg);
     let r = m.to::<(IpcSharedMemory, IpcSharedMemory)>();
-    cover!(r.is_ok(), "REACH_OK");
-    cover!(r.is_err(), "REACH_ERR");
+    crate::witness!(r.is_ok(), "WITNESS:REACH_OK");
+    crate::witness!(r.is_err(), "WITNESS:REACH_ERR");
     if let Ok((a, b)) = &r {
         assert!(a.len() == 0 || b.len() == 0 || a[0] != b[0], "C16-TWICE: one region handed out twice");
     }
@@ -151,8 +151,8 @@ fn mixed() {
     setup(64);
     let (m, att) = garbage_message(1, 1);
     let r = m.to::<(IpcSender<u8>, IpcSharedMemory, u8)>();
-    cover!(r.is_ok(), "REACH_OK");
-    cover!(r.is_err(), "REACH_ERR");
+    crate::witness!(r.is_ok(), "WITNESS:REACH_OK");
+    crate::witness!(r.is_err(), "WITNESS:REACH_ERR");
     drop(r);
     finish(&att);
 }
